@@ -1,1 +1,174 @@
-// harness stub
+//! C16 harness (child module of `astria_composer::executor`, compiled only with `--features verif` in test builds).
+//!
+//! Drives the real `BundleFactory` with op words over {push(size class), pop finished, peek-and-drop, pop_now} and
+//! records, per word, what every call returned and which payload ids came out in which bundle. Exhaustive over all
+//! words up to a length for small capacities, random longer words otherwise. /verif/lib/checkers/c16.py judges.
+#![allow(clippy::pedantic, clippy::arithmetic_side_effects, dead_code, unused_imports)]
+
+#[path = "/verif/harness/common/vlog.rs"]
+mod vlog;
+
+use astria_core::{
+    primitive::v1::{
+        asset::Denom,
+        RollupId,
+    },
+    protocol::transaction::v1::{
+        action::RollupDataSubmission,
+        Action,
+    },
+    Protobuf as _,
+};
+use prost::Message as _;
+use rand::{
+    Rng as _,
+    SeedableRng as _,
+};
+use rand::rngs::StdRng as ChaChaRng;
+use serde_json::json;
+use vlog::VLog;
+
+use super::bundle_factory::{
+    BundleFactory,
+    BundleFactoryError,
+    SizedBundle,
+};
+
+fn fee_asset() -> Denom {
+    let d: Denom = "nria".parse().unwrap();
+    d.to_ibc_prefixed().into()
+}
+
+/// An action whose encoded size is exactly `size` bytes (if reachable) and whose payload starts with a unique id.
+fn action_of_size(id: u32, size: usize, rollup: u8) -> RollupDataSubmission {
+    let mk = |len: usize| {
+        let mut data = vec![0xEEu8; len.max(4)];
+        data[..4].copy_from_slice(&id.to_le_bytes());
+        RollupDataSubmission { rollup_id: RollupId::new([rollup; 32]), data: data.into(), fee_asset: fee_asset() }
+    };
+    let mut len = size.saturating_sub(120).max(4);
+    // encoded length grows by 1 per data byte (plus the occasional extra varint byte): search upwards
+    loop {
+        let a = mk(len);
+        let e = a.to_raw().encoded_len();
+        if e >= size || len > size + 8 {
+            return a;
+        }
+        len += size - e;
+    }
+}
+
+fn ids_of(bundle: &SizedBundle) -> (Vec<u32>, Vec<usize>) {
+    if bundle.is_empty() {
+        // the executor never builds a transaction from an empty bundle either
+        return (vec![], vec![]);
+    }
+    let body = bundle.to_transaction_body(0, "verif");
+    let mut ids = vec![];
+    let mut sizes = vec![];
+    for a in body.actions() {
+        if let Action::RollupDataSubmission(r) = a {
+            ids.push(u32::from_le_bytes(r.data[..4].try_into().unwrap()));
+            sizes.push(r.to_raw().encoded_len());
+        }
+    }
+    (ids, sizes)
+}
+
+const MAX: usize = 400;
+/// size classes relative to MAX
+const CLASSES: [(&str, usize); 6] = [("tiny", 110), ("third", 134), ("half", 200), ("half_plus_1", 201), ("max", 400), ("max_plus_1", 401)];
+const OPS: usize = CLASSES.len() + 3; // + pop_finished, peek_drop, pop_now
+
+fn run_word(log: &VLog, cap: usize, word: &[usize], mode: &str) {
+    let mut f = BundleFactory::new(MAX, cap);
+    let mut next_id = 1u32;
+    let mut trace = vec![];
+    for &op in word {
+        if op < CLASSES.len() {
+            let (cname, size) = CLASSES[op];
+            let mut a = action_of_size(next_id, size, (next_id % 3) as u8 + 1);
+            let actual = a.to_raw().encoded_len();
+            if next_id % 2 == 0 {
+                // as the collectors do: the fee asset arrives in its trace-prefixed spelling and is normalised by the factory
+                a.fee_asset = "nria".parse().unwrap();
+            }
+            let full_before = f.is_full();
+            let res = vlog::guarded(|| f.try_push(a));
+            let r = match res {
+                Ok(Ok(())) => "ok".to_string(),
+                Ok(Err(BundleFactoryError::SequenceActionTooLarge { .. })) => "too_large".to_string(),
+                Ok(Err(BundleFactoryError::FinishedQueueFull(_))) => "queue_full".to_string(),
+                Err(p) => format!("panic:{p}"),
+            };
+            trace.push(json!(["push", cname, next_id, actual, full_before, r]));
+            next_id += 1;
+        } else if op == CLASSES.len() {
+            let r = f.next_finished().map(|h| h.pop());
+            match r {
+                Some(b) => {
+                    let (ids, sizes) = ids_of(&b);
+                    trace.push(json!(["pop_finished", ids, sizes, b.get_size()]));
+                }
+                None => trace.push(json!(["pop_finished", null])),
+            }
+        } else if op == CLASSES.len() + 1 {
+            // take the handle and drop it without popping (async cancellation): must not lose anything
+            let had = f.next_finished().is_some();
+            trace.push(json!(["peek_drop", had]));
+        } else {
+            let b = f.pop_now();
+            let (ids, sizes) = ids_of(&b);
+            trace.push(json!(["pop_now", ids, sizes, b.get_size()]));
+        }
+    }
+    // drain: everything accepted must still come out, in order
+    let mut drain = vec![];
+    for _ in 0..(word.len() + 2) {
+        let b = f.pop_now();
+        let (ids, sizes) = ids_of(&b);
+        if ids.is_empty() {
+            break;
+        }
+        drain.push(json!([ids, sizes, b.get_size()]));
+    }
+    log.ev(json!({"kind": "word", "mode": mode, "cap": cap, "max": MAX, "ops": trace, "drain": drain}));
+}
+
+#[test]
+fn bundle_words() {
+    let log = VLog::open("c16-bundles");
+    let (shard, shards) = vlog::shard();
+    let max_len = vlog::env_u64("VERIF_WORD_LEN", 5) as usize;
+    let mut idx = 0u64;
+    for cap in 0..=2usize {
+        for len in 1..=max_len {
+            let total = OPS.pow(len as u32);
+            for code in 0..total {
+                idx += 1;
+                if idx % shards != shard {
+                    continue;
+                }
+                let mut c = code;
+                let word: Vec<usize> = (0..len)
+                    .map(|_| {
+                        let o = c % OPS;
+                        c /= OPS;
+                        o
+                    })
+                    .collect();
+                run_word(&log, cap, &word, "exhaustive");
+            }
+        }
+    }
+    // random longer words, larger capacities
+    let mut rng = ChaChaRng::seed_from_u64(vlog::seed() ^ 0xC16 ^ (shard << 20));
+    let n = vlog::env_u64("VERIF_RANDOM_WORDS", 2000);
+    for _ in 0..n {
+        let cap = rng.gen_range(0..=4usize);
+        let len = rng.gen_range(max_len + 1..=40);
+        let word: Vec<usize> = (0..len).map(|_| if rng.gen_bool(0.7) { rng.gen_range(0..CLASSES.len()) } else { rng.gen_range(CLASSES.len()..OPS) }).collect();
+        run_word(&log, cap, &word, "random");
+    }
+    log.end();
+}
